@@ -2,7 +2,7 @@
 #pragma once
 extern "C" void h_parse_input(void) {
     CTransaction spend, fund; __CPROVER_havoc_object(&spend); __CPROVER_havoc_object(&fund);
-    __CPROVER_assume(spend.vin.n <= VERIF_MAX_VIN);
+    __CPROVER_assume(spend.vin.n <= VERIF_MAX_VIN); __CPROVER_assume(fund.vout.n <= 100000);
     Instance inst; inst.tx = nondet_bool() ? &spend : (CTransaction*)0; inst.txin = 0; inst.txin_index = -1; inst.txin_vout_index = -1;
     bool parse_ok = nondet_bool(); g_parse_tx_result = parse_ok ? &fund : (CTransaction*)0;
     int sel = nondet_int(); __CPROVER_assume(sel >= -1 && sel <= 1000);
@@ -13,12 +13,15 @@ extern "C" void h_parse_input(void) {
     long first = -1; for (size_t i = 0; i < VERIF_MAX_VIN; ++i) if (i < spend.vin.n && first < 0 && spend.vin.a[i].prevout.hash == fund.id) first = (long)i;
     if (sel > -1) {
         bool valid = (size_t)sel < spend.vin.n && spend.vin.a[sel < VERIF_MAX_VIN ? sel : 0].prevout.hash == fund.id;
-        __CPROVER_assert(r == valid, "spec: an explicit selection is accepted exactly when it is in range and that input spends the funding transaction");
+        const bool exists = valid && (size_t)spend.vin.a[sel < VERIF_MAX_VIN ? sel : 0].prevout.n < fund.vout.n;
+        __CPROVER_assert(r == (valid && exists), "spec: an explicit selection is accepted exactly when it is in range, that input spends the funding transaction and the output it references exists there");
         if (r) __CPROVER_assert(inst.txin_index == sel && inst.txin_vout_index == (int64_t)spend.vin.a[sel < VERIF_MAX_VIN ? sel : 0].prevout.n, "spec: the selected input and the output IT references are used");
         __CPROVER_assert(!(r && sel == 1 && first == 0), "canary: selecting the second of two spending inputs reachable");
     } else {
-        __CPROVER_assert(r == (first >= 0), "spec: without a selection the session is refused exactly when no input spends the funding transaction");
+        const bool exists = first >= 0 && (size_t)spend.vin.a[first < VERIF_MAX_VIN ? first : 0].prevout.n < fund.vout.n;
+        __CPROVER_assert(r == (first >= 0 && exists), "spec: without a selection the session is refused exactly when no input spends the funding transaction or the referenced output does not exist");
         if (r) __CPROVER_assert(inst.txin_index == first && inst.txin_vout_index == (int64_t)spend.vin.a[first < VERIF_MAX_VIN ? first : 0].prevout.n, "spec: the first input that spends the funding transaction is used, with the output it references");
         __CPROVER_assert(!(r && first == 1), "canary: automatic selection of a later input reachable");
     }
+    __CPROVER_assert(!r || (size_t)inst.txin_vout_index < fund.vout.n, "spec: on success the referenced output exists in the funding transaction (its amount and locking script are read next)");
 }
